@@ -3,6 +3,8 @@
 // Export shim added to package bot through `go build -overlay` (see overlays/gen.sh); never part of the repository.
 package bot
 
+import pk "github.com/Tnze/go-mc/net/packet"
+
 // VerifAuthDigest exposes the client-side session hash (bot/login.go: authDigest).
 func VerifAuthDigest(serverID string, sharedSecret, publicKey []byte) string {
 	return authDigest(serverID, sharedSecret, publicKey)
@@ -10,3 +12,8 @@ func VerifAuthDigest(serverID string, sharedSecret, publicKey []byte) string {
 
 // VerifTwosComplement exposes the in-place negation used by authDigest (the argument is modified).
 func VerifTwosComplement(p []byte) []byte { return twosComplement(p) }
+
+// VerifHandlePacket exposes the dispatch of one received play packet (bot/ingame.go: handlePacket).
+func VerifHandlePacket(c *Client, id int32, data []byte) error {
+	return c.handlePacket(pk.Packet{ID: id, Data: data})
+}
